@@ -433,3 +433,7 @@ def _block_of(repo, st):
         if st in h.body:
             return h.body
     return [st]
+
+
+from .extra import with_extra  # noqa: E402
+run = with_extra('C12', run)
